@@ -9,7 +9,7 @@ LEVEL = "proof"
 META = {
     "category": "proof",
     "text": "Coq theorems over a model of internal/compile/serial.go: Go's varint/uvarint codec defined and proved to round-trip for every int64/uint64 (with the truncated and overflow results), a schema-directed codec with the two sections of the wire format (program varints + string section referenced by lengths in lock step) proved to round-trip for every schema and every well-typed value with nothing left over and byte-identical re-encoding, the schema of Program/Funcode/Binding/constants written once in encoder order and once in decoder order and proved equal, hence decode(encode p) = p for every program within the ranges of the Go field types. The model is tied to /repo on every run: the real Program.Write bytes of compiled and synthetic programs must equal the model's encoding of the dump of every field, and the model's decoder must recover the dump from the real bytes; the direct property (same prints, globals, errors, backtraces, docstrings, parameter metadata, loads; same bytes on re-Write) is run on generated programs; truncated and corrupted files are decoded in sacrificial processes.",
-    "note": "Trusted: Coq kernel + vm_compute; the Go harness and its program generator; math.Float64bits/Float64frombits and big.Int Text(10)/SetString as oracles (constants are modelled by their bits / decimal text); the field lists of Program/Funcode are compared with compile.go textually; execution equivalence itself is observed on generated programs, the theorem is equality of every field the interpreter reads.",
+    "note": "Trusted: Coq kernel + vm_compute; the Go harness and its program generator; math.Float64bits/Float64frombits as an oracle (a float constant is modelled by its bits); big.Int.Text(10)/SetString are modelled by Codec.print_dec/parse_dec (round trip proved, tied to the real text by the byte-level correspondence); the field lists of Program/Funcode are compared with compile.go textually; execution equivalence itself is observed on generated programs, the theorem is equality of every field the interpreter reads.",
     "technique": "Coq proof over executable model + differential correspondence (vm_compute) + decoder-side oracle + direct round-trip runs + corrupted-input runs in child processes",
 }
 HEADER = """From Coq Require Import ZArith Bool List String Ascii.
@@ -61,7 +61,12 @@ def const(c):
     k = KINDS.get(c["k"])
     if k is None:
         return None
-    if c["k"] in ("string", "bytes", "bigint"):
+    if c["k"] == "bigint":
+        try:
+            return "(CBigInt %s)" % z(int(bytes.fromhex(c.get("s", "")).decode("ascii")))
+        except ValueError:
+            return None
+    if c["k"] in ("string", "bytes"):
         return "(%s %s)" % (k, hexlist(c.get("s", "")))
     if c["k"] == "int":
         return "(CInt %s)" % z(c.get("i", 0))
@@ -195,11 +200,11 @@ def run(ctx):
 
     # ---------------------------------------------------------------- (a) direct round trip
     skip = os.environ.get("C17_SKIP", "")   # development only: letters a, b, c
-    n_rt = 400 if quick else 12000
+    n_rt = 400 if quick else 8000
     if "a" in skip:
         n_rt = 1
     # (a) and (c) run in the background while Coq evaluates (b)
-    n_cor = 150 if quick else 3000
+    n_cor = 150 if quick else 2000
     fut_rt = pool.submit(ctx.jsonl, [hx, "-mode", "rt", "-seed", seed, "-n", str(n_rt)], 800)
     fut_cor = pool.submit(lambda: [] if "c" in skip else ctx.jsonl([hx, "-mode", "corrupt", "-seed", seed, "-n", str(n_cor)], 800))
     rt = fut_rt.result()
@@ -224,7 +229,7 @@ def run(ctx):
         ctx.broken("generator:C17", "%d of %d generated programs do not compile" % (invalid, len(rt)))
 
     # ---------------------------------------------------------------- (b) correspondence
-    n_corr = 45 if quick else 4000
+    n_corr = 30 if quick else 2500
     corr = ctx.jsonl([hx, "-mode", "corr", "-seed", seed, "-n", str(n_corr)] + (["-small"] if quick else []), timeout=800)
     terms, refs, seen = [], [], set()
     cdist = {}
@@ -305,6 +310,10 @@ Definition wt_ok (c : case) : bool := wt_program (fst c).
             dcases.append("(%s, %s)" % (hexlist(c["hex"]), cb(c["ok"])))
             drefs.append(c)
     ctx.log("(c) %d corrupted files: %s" % (csum.get("cases", 0), csum.get("outcomes")))
+    if quick and len(dcases) > 150:
+        step = len(dcases) // 150 + 1
+        off = ctx.seed % step
+        dcases, drefs = dcases[off::step], drefs[off::step]
     # the decoder model reproduces accept / reject on the small corrupted files
     dheader = HEADER + """
 Definition dec_ok (c : bytes * bool) : bool :=
@@ -331,7 +340,7 @@ Definition dec_ok (c : bytes * bool) : bool :=
     }
     return ctx.finish(LEVEL, cov, assumptions=[
         "math.Float64bits / Float64frombits are inverse bijections on 64-bit patterns (a float constant is modelled by its bits)",
-        "big.Int.Text(10) / SetString(.,10) round-trip (a big integer constant is modelled by its canonical decimal text)",
+        "big.Int.Text(10) is Codec.print_dec and SetString(.,10) is Codec.parse_dec (checked on the bytes of every bigint constant the harness produces; the round trip of the two is proved)",
         "encoding/binary varints are modelled by Codec.put_uvarint / uvarint (defined and proved in Coq; tied by the byte-level correspondence)",
         "programs below 4 GiB of encoded program section (the string-section offset is a uint32)",
         "execution is a function of the compiled program's fields, predeclared values and the thread (C01); the harness observes it on generated programs",
